@@ -124,6 +124,17 @@ func Generate(r *lp.Rng, o Opts) *Design {
 				Params: []Mapped{{Attr: "item_kind"}}}}
 		s.Methods = append(s.Methods, m)
 	}
+	if o.Index%6 == 1 {
+		// two request bodies of one shape with different validations (the documents must not merge their schemas)
+		s := g.d.Services[0]
+		for k, pat := range []string{"^[a-z]+$", "[0-9]"} {
+			s.Methods = append(s.Methods, &Method{Name: "twin_" + string(rune('a'+k)), NoSecurity: o.Security,
+				HTTP: &HTTPMap{Verb: "POST", Path: "/twin_" + string(rune('a'+k))},
+				Payload: &Att{Type: &Type{IsObject: true, Object: []*Field{
+					{Name: "code", Att: &Att{Type: &Type{Prim: "String"}, Val: &Validation{Pattern: pat}}},
+					{Name: "qty", Att: &Att{Type: &Type{Prim: "Int"}, Val: &Validation{Min: fp(float64(k)), Max: fp(float64(5 + 5*k))}}}}}, Required: []string{"code"}}})
+		}
+	}
 	if o.Index%8 == 7 {
 		// a user type named like the type goa derives for the inline payload of an EARLIER method, used only
 		// inside the payload of a later one
